@@ -64,7 +64,8 @@ TDec == /\ IsEvent("hc.dec")
 
 TCloseBegin == /\ IsEvent("hc.close.begin")
                /\ IF cstate[E.c] = "lent" THEN ReqClose(Owner(E.c)) ELSE cstate[E.c] = "closing" /\ Same
-TNetClose == IsEvent("hc.netclose") /\ NetClose(E.c)
+TNetClose == IsEvent("hc.netclose") /\ (IF cstate[E.c] = "raw" THEN \E r \in Reqs : HsFail(r, E.c) ELSE NetClose(E.c))
+TRawDial == IsEvent("hc.rawdial") /\ RawDial(E.c)
 TRelBegin == /\ IsEvent("hc.rel.begin")
              /\ IF cstate[E.c] = "lent" THEN ReqRelease(Owner(E.c)) ELSE cstate[E.c] = "releasing" /\ Same
 
@@ -90,7 +91,7 @@ TQuiesce == IsEvent("quiesce") /\ Quiescent /\ count = E.count /\ Len(idle) = E.
 TraceNext == \/ TReset
              \/ /\ UNCHANGED cfg
                 /\ \/ TAcqIdle \/ TAcqNew \/ TEnq \/ TReady \/ TCancelBegin \/ TCancel \/ TDial \/ TDialFor
-                   \/ TDecDial \/ TDec \/ TCloseBegin \/ TNetClose \/ TRelBegin \/ TDeliver \/ TRelease
+                   \/ TDecDial \/ TDec \/ TCloseBegin \/ TNetClose \/ TRawDial \/ TRelBegin \/ TDeliver \/ TRelease
                    \/ TCloseIdle \/ TClean \/ TQuiesce
 
 TraceSpec == TraceInit /\ [][TraceNext]_<<vars, l>>
